@@ -87,7 +87,8 @@ def run(ctx):
             ctx.broken('theorem', 'grep gate', hits)
         ctx.coqchk('SDC.Props.C06')
     return ctx.finish(
-        rule='provider histories on the loop-back world with a fault-injecting transport: per transaction the pending '
+        rule='histories also contain empty transactions of every kind (empty body, get_state + unget_state, every call refused), API calls that are refused and handled inside the body (the refused statement must leave nothing of itself), re-creation of context state handles through add_state, reseq operations that change only the InstanceId, and the same transaction on the same handle set repeated; '
+             'provider histories on the loop-back world with a fault-injecting transport: per transaction the pending '
              'notifications are delivered in order / withheld (delay past later reports) / dropped / duplicated / reversed / '
              'newest-first, old notifications are replayed, the provider gets a new SequenceId (+InstanceId) mid-history, '
              'InstanceId absent / 0 / a number, crafted walks in which the removal of a descriptor overtakes a withheld state '
